@@ -335,7 +335,10 @@ fn op_body(case: &Value) -> Value {
         "typed" => ApiEndpoint::from(body_typed),
         _ => ApiEndpoint::from(body_untyped),
     };
-    e.request_body_max_bytes = ovr;
+    e.request_body_max_bytes = None;
+    // through the builder, as application code does (possibly more than once)
+    if let Some(o) = ovr { e = e.request_body_max_bytes(o); }
+    if let Some(o2) = case["override_again"].as_u64() { e = e.request_body_max_bytes(o2 as usize); }
     let mut api = ApiDescription::new();
     api.register(e).unwrap();
     let total: usize = chunks.iter().sum();
@@ -352,7 +355,11 @@ fn op_body(case: &Value) -> Value {
     let mut writes: Vec<Vec<u8>> = vec![if content_length {
         format!("PUT /{} HTTP/1.1\r\nHost: replay\r\nConnection: close\r\nContent-Type: application/json\r\nContent-Length: {}\r\n\r\n", ext, total).into_bytes()
     } else {
-        format!("PUT /{} HTTP/1.1\r\nHost: replay\r\nConnection: close\r\nContent-Type: application/json\r\nTransfer-Encoding: chunked\r\n\r\n", ext).into_bytes()
+        match case["declared_length"].as_u64() {
+            // a Content-Length header that hyper ignores in favour of the chunked framing, but leaves visible to the application
+            Some(n) => format!("PUT /{} HTTP/1.1\r\nHost: replay\r\nConnection: close\r\nContent-Type: application/json\r\nContent-Length: {}\r\nTransfer-Encoding: chunked\r\n\r\n", ext, n).into_bytes(),
+            None => format!("PUT /{} HTTP/1.1\r\nHost: replay\r\nConnection: close\r\nContent-Type: application/json\r\nTransfer-Encoding: chunked\r\n\r\n", ext).into_bytes(),
+        }
     }];
     let mut off = 0;
     for c in &chunks {
